@@ -30,9 +30,11 @@ ASSUMPTIONS = [
     'the per-unit outputs used as reference are themselves measured on the tool (all other '
     'units failing); the anchor is the fault-free run without --skip-failed',
 ]
-BUDGET = {'quick': 6, 'thorough': 40}
+BUDGET = {'quick': 4, 'thorough': 40}
 WALL = {'quick': 900, 'thorough': 3 * 3600}
-CASE_LIMIT = {'quick': 1200, 'thorough': 3000}     # up to 2^5 + 6 tool runs per case
+# up to 2^5 + 6 tool runs per case, normally under a minute of CPU; an input on which the tool
+# itself needs minutes per run is abandoned (inconclusive)
+CASE_LIMIT = {'quick': 150, 'thorough': 3000}
 EXHAUSTIVE_NOTE = {'quick': 'all 2^n fault subsets of every generated input (n <= 5)',
     'thorough': 'all 2^n fault subsets of every generated input (n <= 5)'}
 
